@@ -154,6 +154,56 @@ def extract_binding(ctx) -> None:
     shared.stmt_under(ctx, 'C10.extract', new, 'apply = apply.statement', [], 'the apply source is turned into its statement', 'extract:apply', inlined=False, siblings=False)
 
 
+def once_resolution(ctx) -> None:
+    """The delivery semantic an ordinal is created with is the one it keeps: ``Ordinal.__new__`` stores ``Once(once)`` for every
+    given value - a name *or an enum member* (``Enum(member)`` is the member) - and EXACTLY only when none is given."""
+    prog = ctx.prog
+    fn = prog.func(f'{COMPONENT}:Source.Extract.Ordinal.__new__').inlined()
+    sup = [c for c in core.calls_in(fn.node) if isinstance(c.func, ast.Attribute) and c.func.attr == '__new__' and core.src(c.func.value) == 'super()']
+    stored = core.src(sup[0].args[2]) if len(sup) == 1 and len(sup[0].args) == 3 else None
+    ctx.check(stored in ('cls.Once(once) if once else cls.Once.EXACTLY', 'cls.Once.EXACTLY if not once else cls.Once(once)', 'cls.Once(once or cls.Once.EXACTLY)'), 'C10.once-resolution', fn, f'the stored semantic is Once(once) for any given value, EXACTLY for none (stored: `{stored}`)', sup[0] if sup else fn.node, key='ordinal:once')
+
+
+def feed_roles(ctx) -> None:
+    """The feed keeps the two statements in their roles all the way into the drivers: in ``Feed.load`` the *apply* actor of the
+    extraction operator is built from ``extract.apply`` and the *train* actor from ``extract.train`` (def-use closure over
+    the function: assignments, the nested actor helper, functools.partial) - so that the windows of train mode are cut from
+    the train query even when an explicit apply query differs from it."""
+    prog = ctx.prog
+    fn = prog.func('forml.io._input:Feed.load')
+    defs: dict = {}
+    for a in ast.walk(fn.node):
+        if isinstance(a, ast.Assign):
+            for t in a.targets:
+                for x in ast.walk(t):
+                    if isinstance(x, ast.Name) and isinstance(x.ctx, ast.Store):
+                        defs.setdefault(x.id, []).append(a.value)
+        elif isinstance(a, ast.AnnAssign) and isinstance(a.target, ast.Name) and a.value is not None:
+            defs.setdefault(a.target.id, []).append(a.value)
+
+    def prov(e: ast.AST, seen=()) -> set:
+        out = set()
+        for x in ast.walk(e):
+            if isinstance(x, ast.Attribute) and isinstance(x.value, ast.Name) and x.value.id == 'extract' and x.attr in ('train', 'apply'):
+                out.add(x.attr)
+            elif isinstance(x, ast.Name) and isinstance(x.ctx, ast.Load) and x.id in defs and x.id not in seen:
+                for d in defs[x.id]:
+                    out |= prov(d, seen + (x.id,))
+        return out
+
+    ops = [c for c in core.calls_in(fn.node) if core.call_tail(c) == 'Operator']
+    ctx.floor('C10.feed-roles', len(ops), 1)
+    for c in ops:
+        args = list(c.args) + [None] * 3
+        named = {k.arg: k.value for k in c.keywords}
+        apply_arg = named.get('apply', args[0])
+        train_arg = named.get('train', args[1])
+        pa = prov(apply_arg) if apply_arg is not None else set()
+        pt = prov(train_arg) if train_arg is not None else set()
+        ctx.check(pa == {'apply'}, 'C10.feed-roles', fn, f'the apply-mode driver reads the apply statement only (derives from extract.{sorted(pa)})', c, key='load:apply')
+        ctx.check(pt == {'train'}, 'C10.feed-roles', fn, f'the train-mode driver reads the train statement only (derives from extract.{sorted(pt)})', c, key='load:train')
+
+
 def where_construction(ctx, tenv) -> None:
     prog = ctx.prog
     fn = prog.func(f'{COMPONENT}:Source.Extract.Ordinal.where').inlined()
@@ -260,10 +310,12 @@ def run(ctx) -> None:
     prog = ctx.prog
     tenv = types.TypeEnv(prog)
     resolver = calls.Resolver(prog, tenv)
-    once_table(ctx)
     extract_binding(ctx)
+    feed_roles(ctx)
     prepared_call(ctx)
     where_construction(ctx, tenv)
+    once_resolution(ctx)
+    once_table(ctx)
     from . import C06
 
     C06.cache_key(ctx)  # consecutive windows of one shape differ in their bound literals only
